@@ -310,6 +310,9 @@ func (d *c05Dir) check(p c05Packet, prime int64, explicit bool) (string, string)
 	if explicit {
 		expl = int64(p.pn)
 	}
+	if explicit {
+		prime = -1 // the receiver state cannot be brought there; the packet number expansion is bypassed
+	}
 	// the repo's receiver opens the reference packet
 	o, perr := d.primed(prime)
 	if perr != "" && sig == "" {
@@ -550,7 +553,7 @@ func TestVerifC05Seal(t *testing.T) {
 func TestVerifC05Tamper(t *testing.T) {
 	l := evlog.Open("C05")
 	defer l.Close()
-	nSets := l.Pick(320, 12000)
+	nSets := l.Pick(320, 24000)
 	const perCase = 8
 	for bi := 0; bi*perCase < nSets; bi++ {
 		if !l.Mine(bi) {
